@@ -16,6 +16,7 @@ import SeataModel.Driver.AT
 import SeataModel.Driver.C03
 import SeataModel.Driver.C16
 import SeataModel.Driver.C11
+import SeataModel.Driver.C17
 import SeataModel.Driver.C02
 
 open Seata.Driver
@@ -37,6 +38,7 @@ def dispatch (prop : String) (ws : List String) : String :=
   | "C03" => Seata.Driver.C03.handle ws
   | "C16" => Seata.Driver.C16.handle ws
   | "C11" => Seata.Driver.C11.handle ws
+  | "C17" => Seata.Driver.C17.handle ws
   | _ => "bad-prop"
 
 partial def loop (hin : IO.FS.Stream) (hout : IO.FS.Stream) : IO Unit := do
